@@ -110,20 +110,23 @@ def build_args(path, mod, case, run):
         return lambda api: getattr(api, op)()
     if op == "control_device":
         cmd = getattr(mod.Command, case["command"])
-        minutes = fresh_int(path, "minutes", -(1 << 40), 1 << 40)
+        minutes = fresh_int(path, "minutes", -(1 << 40), 1 << 40) if not case.get("simple") else fresh_int(path, "minutes", 0, 1 << 20)
         a["on"] = 1 if case["command"] == "ON" else 0
         a["minutes"] = minutes
         run.json_args = lambda m: [{"enum": "Command." + case["command"]}, C.ev_int(m, minutes)]
         return lambda api: api.control_device(cmd, minutes)
     if op == "set_auto_shutdown":
-        secs = fresh_int(path, "td_secs", -(1 << 31), (1 << 31) - 1)
+        secs = fresh_int(path, "td_secs", -(1 << 31), (1 << 31) - 1) if not case.get("simple") else fresh_int(path, "td_secs", 3600, 86340)
         a["secs"] = secs
         td = timeenv.STimedelta(seconds=secs)
         run.json_args = lambda m: [{"timedelta_s": C.ev_int(m, secs)}]
         return lambda api: api.set_auto_shutdown(td)
     if op == "set_device_name":
         B = case["B"]
-        nb = fresh_bytes(path, "name", B)
+        nb = fresh_bytes(path, "name", B, ascii=bool(case.get("simple")))
+        if case.get("simple"):
+            for u in nb.items:
+                path.constrain(z3.ULT(u.t, 128))
         path.assume(bterm(utf8_valid(nb.items)))
         name = SymSeq("str", list(nb.items))
         a["name_bytes"] = nb
@@ -138,7 +141,7 @@ def build_args(path, mod, case, run):
         run.json_args = lambda m: [C.ev_seq(m, sid)]
         return lambda api: api.delete_schedule(sid)
     if op == "set_position":
-        pos = fresh_int(path, "position", -16, 4100)
+        pos = fresh_int(path, "position", -16, 4100) if not case.get("simple") else fresh_int(path, "position", 0, 100)
         a["position"] = pos
         run.json_args = lambda m: [C.ev_int(m, pos)]
         return lambda api: api.set_position(pos)
@@ -153,8 +156,12 @@ def build_args(path, mod, case, run):
     raise KeyError(op)
 
 
-def run_op(path, case, zone_rows=None, reply_plan=None, dev=None, api=None, tag=""):
-    """one symbolic run of one API operation on a fresh (or given) connected api object"""
+_OWNER = [0]
+
+
+def prepare_op(path, case, zone_rows=None, reply_plan=None, dev=None, api=None, tag=""):
+    """set up one symbolic run of one API operation on a fresh (or given) connected api object;
+    returns the OpRun with run.coro() ready to be driven"""
     mod = loader.load("api")
     op = case["op"]
     run = OpRun()
@@ -166,15 +173,19 @@ def run_op(path, case, zone_rows=None, reply_plan=None, dev=None, api=None, tag=
     if dev is None:
         dev = sym_device(path, tag)
     run.dev = dev
+    _OWNER[0] += 1
+    run.owner = _OWNER[0]
     if api is None:
         cls = mod.SwitcherType1Api if run.api_type == 1 else mod.SwitcherType2Api
         api = cls("192.168.1.10", dev["dev_id"], dev["dev_key"])
-        w.reply_fn = lambda conn, k: run.replies[k]
+        yp, w.yield_points = w.yield_points, False
         aio.run(api.connect())
+        w.yield_points = yp
+        api._verif_conn = w.conns[-1]
     run.api = api
-    conn = w.conns[-1]
-    nframes0 = len(conn.frames)
-    nreads0 = len(te.reads)
+    conn = api._verif_conn
+    run.conn = conn
+    run.nframes0 = len(conn.frames)
     # replies
     lr, session = login_reply(path, tag + "login")
     run.session = session
@@ -182,20 +193,39 @@ def run_op(path, case, zone_rows=None, reply_plan=None, dev=None, api=None, tag=
     plan = reply_plan or default_reply_plan
     plan(path, case, run, tag)
     base_reads = conn.nreads
-    w.reply_fn = lambda c, k: run.replies[k - base_reads] if 0 <= k - base_reads < len(run.replies) else _noreply()
+    conn.reply_fn = lambda c, k: run.replies[k - base_reads] if 0 <= k - base_reads < len(run.replies) else _noreply()
     call = build_args(path, mod, case, run)
     run.a.update(session=session, dev_id=dev["dev"], key=dev["key"])
-    try:
-        run.result = aio.run(call(api))
-        run.outcome = "ok"
-    except Exception as e:  # noqa: BLE001
-        run.result = e
-        run.outcome = "exc"
-    run.frames = [SymSeq.of(f) if not isinstance(f, SymSeq) else f for f in conn.frames[nframes0:]]
-    run.clock_reads = te.reads[nreads0:]
+    run.coro = lambda: call(api)
     run.extra["timeenv"] = te
-    run.extra["read0"] = nreads0
     return run
+
+
+def finish_op(run, outcome, result):
+    te = run.extra["timeenv"]
+    run.outcome, run.result = outcome, result
+    conn = run.conn
+    run.frames = [SymSeq.of(f) if not isinstance(f, SymSeq) else f for f in conn.frames[run.nframes0:]]
+    idxs = [k for k, o in enumerate(te.read_owner) if o == run.owner]
+    run.clock_reads = [te.reads[k] for k in idxs]
+    run.extra["read_idx"] = idxs
+    return run
+
+
+def run_op(path, case, zone_rows=None, reply_plan=None, dev=None, api=None, tag=""):
+    """one symbolic run of one API operation, driven to completion"""
+    run = prepare_op(path, case, zone_rows, reply_plan, dev, api, tag)
+    te = run.extra["timeenv"]
+    prev, te.owner = te.owner, run.owner
+    try:
+        try:
+            result = aio.run(run.coro())
+            outcome = "ok"
+        except Exception as e:  # noqa: BLE001
+            result, outcome = e, "exc"
+    finally:
+        te.owner = prev
+    return finish_op(run, outcome, result)
 
 
 def _noreply():
@@ -208,7 +238,9 @@ def default_reply_plan(path, case, run, tag):
         from harness import breezeargs
 
         return breezeargs.reply_plan(path, case, run, tag)
-    if op == "get_state":
+    if case.get("simple") and op in ("get_state", "get_breeze_state", "get_shutter_state"):
+        run.replies.append(bytes(107))
+    elif op == "get_state":
         run.replies.append(SymSeq("bytes", fresh_bytes(path, tag + "st", 101).items + [fresh_blob(path, tag + "st_tail", 0, 923)[0]]))
     elif op in ("get_breeze_state",):
         run.replies.append(SymSeq("bytes", fresh_bytes(path, tag + "st", 92).items + [fresh_blob(path, tag + "st_tail", 0, 932)[0]]))
@@ -225,8 +257,8 @@ def default_reply_plan(path, case, run, tag):
 def replay_spec(run, m, oracle, zone=None, extra=None):
     te = run.extra.get("timeenv")
     te_reads = []
-    for k, t in enumerate(run.clock_reads):
-        up = te.ups.get(run.extra.get("read0", 0) + k) if te is not None else None
+    for k, t in zip(run.extra.get("read_idx", []), run.clock_reads):
+        up = te.ups.get(k) if te is not None else None
         te_reads.append(C.ev_int(m, t) + (0.75 if (up is not None and C.ev_bool(m, up)) else 0.25))
     spec = {
         "kind": "api_op",
